@@ -13,7 +13,7 @@ import (
 
 // TestVerifC14Agent: records written by a long-running agent follow the configuration it has loaded last.
 func TestVerifC14Agent(t *testing.T) {
-	R := vr.New("C14", "agent-after-reload", "an in-process agent whose configuration file is rewritten (another default among the same parameter sets, both algorithms, optional scrypt r/p given or omitted) and reloaded by SIGHUP several times; after each reload add, update (own record and another user's) and a login-triggered upgrade write records, each of which must be a strict schema record that names the default configured NOW, carries the current time and whose digest the reference implementation reproduces from the password, the stored salt and that set's parameters. Non-trivial: every record written after a reload; distinct by (default before, default after, operation)")
+	R := vr.New("C14", "agent-after-reload", "an in-process agent whose configuration file is rewritten (alternately another default among the same parameter sets, and other values - cost / HMAC key / time / length - inside the unchanged default set) and reloaded by SIGHUP several times; after each reload add, update (own record and another user's) and a login-triggered upgrade write records, each of which must be a strict schema record that names the default configured NOW, carries the current time and whose digest the reference implementation reproduces from the password, the stored salt and that set's parameters. Non-trivial: every record written after a reload; distinct by (default before, default after, operation)")
 	defer R.Write()
 	rng := R.Rand("c14a")
 	verifSetLogging(true)
@@ -55,11 +55,29 @@ func TestVerifC14Agent(t *testing.T) {
 	}
 	for round := 0; round < vr.Pick(6, 40); round++ {
 		prev := def
-		for def == prev {
-			def = uint(1 + rng.Intn(4))
+		id := ""
+		if round%2 == 0 {
+			for def == prev {
+				def = uint(1 + rng.Intn(4))
+			}
+			id = fmt.Sprintf("r%d/%d-to-%d", round, prev, def)
+		} else {
+			// same base directory, same default, same ids and algorithms: only a value inside the default set changes
+			ps := &sets[def-1]
+			if ps.Algo == ref.AlgoScrypt {
+				ps.Cost = ps.Cost%5 + 1
+				ps.HmacKey = append([]byte{}, ps.HmacKey...)
+				ps.HmacKey[0] ^= 0x55
+			} else {
+				ps.Time = ps.Time%3 + 1
+				ps.Length = []uint32{16, 24, 32, 48}[rng.Intn(4)]
+			}
+			sm = ref.SetMap(sets)
+			st.Sets = sets
+			id = fmt.Sprintf("r%d/values-of-set-%d", round, def)
+			R.Count("reloads_changing_only_values", 1)
 		}
 		st.Def = def
-		id := fmt.Sprintf("r%d/%d-to-%d", round, prev, def)
 		R.Mark(id)
 		if !c18Reload(st.Cfg, ref.YAML(st.Base, def, sets)) {
 			R.Inconcl("reload event not seen: " + id)
